@@ -42,6 +42,8 @@ def do_op(f, kind, t, km, vm, op):
             t[km.k(op[1])] = vm.v(1)
     elif n == "update":
         t.update([km.k(x) for x in op[1]] if setlike else [(km.k(x), vm.v(2)) for x in op[1]])
+    elif n == "iand":
+        t &= [km.k(x) for x in op[1]]
     elif n == "setstate":
         other, _, _ = build(f, kind, op[1])
         t.__setstate__(other.__getstate__())
@@ -119,7 +121,7 @@ def main():
                 else:
                     try:
                         now = contents(t, kind, km, vm)
-                        mutating = op[0] in ("insert", "update", "setstate")
+                        mutating = op[0] in ("insert", "update", "setstate", "iand")
                         if mutating and op[0] == "update":
                             ok = now[:len(before)] is not None   # a prefix of the update may have been applied item by item
                             allowed = True
@@ -140,9 +142,9 @@ def main():
                                     bad = "unsound-after-failed-setstate:" + str(e)[:40]
                                 except Exception as e:  # noqa
                                     bad = "unusable-after-failed-setstate:" + type(e).__name__
-                        elif op[0] != "setstate" and any(a < b for a, b in zip([sys.getrefcount(o) for o in objs], rc_before)):
+                        elif op[0] not in ("setstate", "iand") and any(a < b for a, b in zip([sys.getrefcount(o) for o in objs], rc_before)):
                             # a DROP only: a completed split legitimately adds a reference (the key becomes a separator)
-                            # (every object stored before is still stored: no operation but __setstate__ removes one)
+                            # (every object stored before is still stored: no operation but __setstate__ and &= removes one)
                             d = [a - b for a, b in zip([sys.getrefcount(o) for o in objs], rc_before) if a != b]
                             bad = "refcount-changed:%d stored object(s) changed their reference count by %r although each of them is still stored exactly as before" % (len(d), sorted(set(d)))
                         else:
